@@ -9,7 +9,7 @@ import CpModel.Dispatch
   conf        = `-` (attribute absent) | `E` (empty dict) | key~val,key~val,…
   val         = N | T | F | i<int> | s<text>
   disp        = `-` | R | P:<pop>:<add: - | name+name…>:<ret: F<id> | FN | S | G | K>:<self: id | N>
-                | A:<nargs>:<handler: - | H<id> | HN>:<self: id | N>        (popargs)
+                | A:<names: - | name+name…>:<handler: - | H<id|N> (object) | C<id|N> (callable)>:<self: id | N>   (popargs)
   node        = flags|attrs|upper|disp|conf       flags ⊆ "tce" or `-`; upper = `-` | name,name…
   nodes       = node;node;…
   sections    = `-` | <text>|<conf>;<text>|<conf>;…
@@ -68,12 +68,14 @@ def parseDisp (s : String) : Option (Option Disp) :=
     let r ← parseRet ret
     let sf ← parseOptId self
     pure (some { self := sf, pop := p, add := a, ret := r })
-  | ["A", nargs, handler, self] => do
-    let n ← nargs.toNat?
+  | ["A", names, handler, self] => do
+    let n ← parseList "+" parseName names
     let sf ← parseOptId self
-    let h ← if handler == "-" then some none
-            else if handler.startsWith "H" then (parseOptId (handler.drop 1).toString).map some
-            else none
+    let h : Option (Bool × Option NodeId) ←
+      if handler == "-" then some none
+      else if handler.startsWith "H" then (parseOptId (handler.drop 1).toString).map fun t => some (false, t)
+      else if handler.startsWith "C" then (parseOptId (handler.drop 1).toString).map fun t => some (true, t)
+      else none
     pure (some (popargsDisp n h sf))
   | _ => none
 
@@ -107,6 +109,9 @@ def parseApp (root noneattrs nodes sections : String) : Option App := do
 
 def showNames (xs : List (List Char)) : String :=
   if xs.isEmpty then "_" else ",".intercalate (xs.map Proto.text)
+
+def showParams (ps : List (Name × Name)) : String :=
+  if ps.isEmpty then "_" else ",".intercalate (ps.map fun (k, v) => Proto.text k ++ "~" ++ Proto.text v)
 
 def showErr : Err → String
   | .segmentAdded => "segmentAdded"
